@@ -43,6 +43,7 @@ type World struct {
 	MinValS  uint64 // value the "min stake up" recipe sets for validators (V2 < it <= V1)
 	MinDelS  uint64 // ... for delegates (V3 < it)
 	Faucet   int    // key index of the faucet account, -1 none
+	NSWindow uint64 // non-sign window (default 2)
 	FreeSend bool   // the send fee parameter is 0
 	// Class is non-empty for a genesis no real network could have (violations found in it get a separate signature class).
 	Class    string
@@ -95,12 +96,15 @@ func GetWorld(spec string) *World {
 		{Key: KV3, Stake: 500, Committees: []uint64{1, 2}, OutputKey: -1, Delegate: true, Compound: true},
 	}
 	switch name {
-	case "small", "faucet", "free":
+	case "small", "faucet", "free", "longwin":
 		w.Accounts = map[int]uint64{KV0: 1000, KV1: 1000, KV2: 1000, KV3: 1000, KA4: 5000, KA5: 3000, KA6: 2000, KA7: 1000}
 		w.Vals = smallVals
 		w.Pools = []*fsm.Pool{{Id: lib.DAOPoolID, Amount: 100}, lp(1000)}
 		if name == "faucet" {
 			w.Faucet = KA7
+		}
+		if name == "longwin" {
+			w.NSWindow = 5 // longer than the unstaking period (2): a validator can leave the chain INSIDE a non-sign window
 		}
 		if name == "free" {
 			w.FreeSend = true // send fee 0 (all fees 0 would be an empty parameter object): a send touches only sender and recipient
@@ -138,6 +142,9 @@ func (w *World) Genesis() *fsm.GenesisState {
 		v := p.Validator
 		v.UnstakingBlocks, v.DelegateUnstakingBlocks, v.MaxPauseBlocks = 2, 2, 3 // max-pause 3: a slash certified right after a pause lands BEFORE the max-pause height
 		v.NonSignWindow, v.MaxNonSign = 2, 1
+		if w.NSWindow != 0 {
+			v.NonSignWindow = w.NSWindow
+		}
 		v.NonSignSlashPercentage, v.DoubleSignSlashPercentage, v.MaxSlashPerCommittee = 5, 10, 15
 		v.MinimumOrderSize = w.MinOrd
 		f := p.Fee
